@@ -502,7 +502,7 @@ FACETS = [
           nontrivial=nontriv_index, classify=classify_index, shards={"quick": 12, "thorough": 16},
           rule="sizes 0..4 (0..5 thorough), every value, every int index -n..n-1, every slice with start/stop in {None,-n-2..n+2} "
                "and step in {None,+-1,+-2,+-3}, every index list of length <= 3 (with repeats for reads); reads and writes (Bits/list/int/shorter-Bits values)"),
-    Facet("index-wide", check_index, strategy=index_strategy, budget={"quick": 6000, "thorough": 120000},
+    Facet("index-wide", check_index, strategy=index_strategy, budget={"quick": 6000, "thorough": 120000}, fuzz={"thorough": 100000},
           nontrivial=nontriv_index, classify=classify_index,
           rule="sizes 1..2048: random slices incl. negative/None/out-of-range bounds and steps, index permutations, repeated lists; reads and writes"),
     Facet("mutation-histories", check_history, strategy=history_strategy, budget={"quick": 3000, "thorough": 60000},
